@@ -436,7 +436,7 @@ Print Assumptions C04_basket_edit.
 (* one step of a history over an object store *)
 Theorem C04_store_step : forall st h k q,
   map data (fst (dstep_run st h)) = strs_step (map data st) h /\
-  map sid (fst (dstep_run st h)) = ids_step (map sid st) h /\
+  map sid (fst (dstep_run st h)) = ids_step_d (map data st) (map sid st) h /\
   (length st <= length (fst (dstep_run st h)))%nat /\
   dstep_run st (DQuery k q) =
     (st, match nth_error (map data st) k with Some d => str_query_run q d | None => show_exc IndexError end).
@@ -447,7 +447,7 @@ Print Assumptions C04_store_step.
    residue strings of all objects are the fold of the corresponding str / list operations; ids follow duplication *)
 Theorem C04_store_history : forall hs st,
   map data (store_final st hs) = fold_left strs_step hs (map data st) /\
-  map sid (store_final st hs) = fold_left ids_step hs (map sid st) /\
+  (map data (store_final st hs), map sid (store_final st hs)) = fold_left pair_step hs (map data st, map sid st) /\
   (length st <= length (store_final st hs))%nat.
 Proof. exact store_history. Qed.
 Print Assumptions C04_store_history.
@@ -533,6 +533,24 @@ Proof. exact (fun gap s fts name => conj
    end (ft_get_spec name fts) (seq_getitem_type_spec gap s fts name))
   (fun t => lower_eq_iff t name)). Qed.
 Print Assumptions C04_ft_first_exact.
+
+(* ==== round 7 ==== *)
+(* LOWER CASE AND THE CONSTRUCTOR: every subscript (plain or gap-aware, int or slice, any step) of a sequence that may
+   hold lower case is the same subscript of its residue string, upper-cased by the constructor, with the id kept *)
+Theorem C04_slice_through_constructor : forall gap s ix,
+  seq_getitem gap s ix = match str_getitem gap (data s) ix with Ok r => Ok (mkseq (py_upper r) (sid s)) | Err e => Err e end.
+Proof. exact seq_getitem_is_str_getitem. Qed.
+Print Assumptions C04_slice_through_constructor.
+
+(* the slicing step of the object-store histories: answer and appended object *)
+Theorem C04_store_slice : forall st k gap ix s, nth_error st k = Some s ->
+  dstep_run st (DSlice k gap ix) =
+  match str_getitem gap (data s) ix with
+  | Ok r => (st ++ [mkseq (py_upper r) (sid s)], show_seq (mkseq (py_upper r) (sid s)))
+  | Err x => (st, show_exc x)
+  end.
+Proof. exact dstep_slice. Qed.
+Print Assumptions C04_store_slice.
 
 (* ---- non-vacuity ---- *)
 Example C04_witness_slice : getslice (bs "A-CG--T"%bs) (mkslice (Some (-5)) (Some 9) None) = Ok (bs "CG--T"%bs) /\
